@@ -671,7 +671,11 @@ func marshalBigInt(info TypeInfo, value interface{}) ([]byte, error) {
 	case uint8:
 		return encBigInt(int64(v)), nil
 	case big.Int:
-		return encBigInt2C(&v), nil
+		// bigint and counter are fixed 8 byte values
+		if !v.IsInt64() {
+			return nil, marshalErrorf("marshal bigint: value %v out of range", &v)
+		}
+		return encBigInt(v.Int64()), nil
 	case string:
 		i, err := strconv.ParseInt(value.(string), 10, 64)
 		if err != nil {
@@ -765,6 +769,8 @@ func marshalVarint(info TypeInfo, value interface{}) ([]byte, error) {
 	switch v := value.(type) {
 	case unsetColumn:
 		return nil, nil
+	case big.Int:
+		retBytes = encBigInt2C(&v)
 	case uint64:
 		if v > uint64(math.MaxInt64) {
 			retBytes = make([]byte, 9)
